@@ -160,6 +160,13 @@ pub fn gen_value(rng: &mut Rng, ty: &str, pool: &Pool) -> Value {
         }
         "Boxed<u32>" => json!({"v": rng.below(100_000)}),
         "Nil" => json!({}),
+        // (often exactly one element, and that one empty)
+        "Vec<Vec<u32>>" => match rng.below(4) {
+            0 => json!([[]]),
+            1 => json!([]),
+            2 => json!([[], []]),
+            _ => json!([[rng.below(9)], []]),
+        },
         "Script" => json!([]),
         "Pay" => json!({"nonce": rng.below(1 << 40), "script": []}),
         other => json!(format!("<<no generator for {other}>>")),
